@@ -2,7 +2,10 @@
 (* Behaviour generation for the transmit arena (see tools/replay_arena.py). *)
 EXTENDS Arena, Json
 
-LensS == {8, 9, 10, 23, 60, 100, 129, 131, 140, 180, 246, 248, 249, 250}
-QLensS == {6, 7, 40, 129, 131, 200, 245, 248, 249, 250, 251}
+\* total packet lengths: small ones, both sides of the 2/3-byte fixed header boundary (130 does not exist),
+\* and everything around the arena-filling size
+Around == {CAP - k : k \in 2..12}
+LensS == {l \in {8, 9, 10, 23, 60, 100, 129, 131, 140, 180} \cup Around : l >= 8 /\ l <= CAP /\ l # 130}
+QLensS == {l \in {6, 7, 40, 129, 131, 200} \cup Around : l >= 6 /\ l <= CAP /\ l # 130}
 Emit == (hist # << >>) => PrintT("@H " \o ToString(TLCGet("stats").traces) \o " " \o ToJson(hist))
 =============================================================================
